@@ -118,7 +118,7 @@ theorem tryCallCol_notify (fx : Fixes) (c : Cfg) (svc ty g m : String) (pay : Pa
 @[simp] theorem wireBack_data (o g m : String) (v : Nat) : wireBack (.data o g m v) = .data o g m v := rfl
 
 theorem behResult_fst_le (svc g m : String) (v : Nat) (b : Beh) : (behResult svc g m v b).1 ≤ lateMs := by
-  cases b <;> simp [behResult, lateMs, slowMs]
+  cases b <;> simp [behResult, lateMs, slowMs, nearMs, overMs]
 
 
 
